@@ -7,7 +7,10 @@
    bit 2  tokens2class: not one class per token, class outside alphabet / unknown marker, gap class,
           or an exception other than the all-unknown ValueError
    bit 3  prosodic_string / sonority / prosodic_weights: not one element per token, or an exception
-   bit 4  class2tokens: tokens touched, or gap pattern differs from the class string *)
+   bit 4  class2tokens: tokens touched, or gap pattern differs from the class string
+   bit 5  an argument list was modified by the call (the caller's list after the calls differs
+          from a copy taken before), or a second call on the same list object returned
+          something else than the first *)
 From Coq Require Import ZArith QArith List Bool Arith.
 From LV Require Import Common.Cases Seq.SeqCommon Seq.Ipa2Tokens Seq.Token2Class Seq.ProsodyBase
      Seq.Prosody Seq.ProsodyW Seq.ClassTokens.
@@ -114,15 +117,24 @@ Definition c2t_okb (gap : token) (tokens classes out : list token) : bool :=
 (* ------------------------------------------------------------------ *)
 (* cases *)
 
+(* [*_after] = the caller's argument list (the same Python object that was passed) read back after
+   the calls; [out2]/[outl2] = a second call with the same objects (history of two calls).  The
+   Gallina functions depend on the VALUES of their arguments only; aliasing is observed on the
+   implementation side and decided by [unchangedb]. *)
+Definition unchangedb (before after : list token) : bool := toks_eqb before after.
+Definition unchangedzb (before after : list Z) : bool := zs_eqb before after.
+
 Inductive seq_case :=
 | CIpa (ks : kwstrings) (s : list char) (runs : list ipa_run)
 | CT2C (tbl : list (token * token)) (stress diacs : list char) (cldf : bool) (toks : list token)
-       (single : list (res token)) (out : res (list token))
+       (single : list (res token)) (out : res (list token)) (toks_after : list token)
 | CPros (mode : omode) (l : list Z) (out : res (list Z)) (user : list (Z * Q)) (weights : res (list Q))
+        (l_after : list Z)
 | CProsTok (art : list (token * token)) (stress diacs : list char) (toks : list token)
-           (cls : res (list token)) (son : res (list Z)) (out : res (list Z))
+           (cls : res (list token)) (son : res (list Z)) (out : res (list Z)) (toks_after : list token)
 | CC2T (gap : token) (tokens classes : list token) (out : list token)
-       (pre suf : list token) (outl : list token).
+       (pre suf : list token) (outl : list token)
+       (out2 outl2 : list token) (tokens_after classes_after : list token).
 
 Definition mode_is_true (m : omode) : bool := match m with OTrue => true | _ => false end.
 
@@ -130,12 +142,13 @@ Definition seq_case_code (c : seq_case) : nat :=
   match c with
   | CIpa ks s runs =>
     bit 0 (forallb (ipa_run_corr ks s) runs) + bit 1 (forallb (ipa_run_prop ks s) runs)
-  | CT2C tbl stress diacs cldf toks single out =>
+  | CT2C tbl stress diacs cldf toks single out toks_after =>
     let conv := assoc_find tbl in
     bit 0 (res_eqb toks_eqb (tokens2class conv (memc stress) (memc diacs) cldf toks) out
            && list_eqb (res_eqb tok_eqb) (map (token2class conv (memc stress) (memc diacs) cldf) toks) single)
     + bit 2 (t2c_okb tbl toks single out)
-  | CPros mode l out user weights =>
+    + bit 5 (unchangedb toks toks_after)
+  | CPros mode l out user weights l_after =>
     bit 0 (res_eqb zs_eqb (prosodic_string mode l) out
            && match out with
               | Ok s => res_eqb qs_eqb (prosodic_weights user s) weights
@@ -148,7 +161,8 @@ Definition seq_case_code (c : seq_case) : nat :=
                 | Ok s, _ => false
                 | _, _ => true
                 end)
-  | CProsTok art stress diacs toks cls son out =>
+    + bit 5 (unchangedzb l l_after)
+  | CProsTok art stress diacs toks cls son out toks_after =>
     let conv := assoc_find art in
     bit 0 (res_eqb toks_eqb (tokens2class conv (memc stress) (memc diacs) false toks) cls
            && res_eqb zs_eqb (sonority conv (memc stress) (memc diacs) false toks) son
@@ -159,9 +173,14 @@ Definition seq_case_code (c : seq_case) : nat :=
                negb (is_ok cls) && (negb (is_ok out) || negb (nonemptyb toks))
              | _ => false
              end)
-  | CC2T gap tokens classes out pre suf outl =>
+    + bit 5 (unchangedb toks toks_after)
+  | CC2T gap tokens classes out pre suf outl out2 outl2 tokens_after classes_after =>
     bit 0 (toks_eqb (class2tokens gap tokens classes) out
-           && toks_eqb (class2tokens_local gap tokens pre classes suf) outl)
+           && toks_eqb (class2tokens_local gap tokens pre classes suf) outl
+           && toks_eqb (class2tokens gap tokens classes) out2
+           && toks_eqb (class2tokens_local gap tokens pre classes suf) outl2)
     + bit 4 (c2t_okb gap tokens classes out
              && c2t_okb gap (local_slice tokens (length pre) (length suf)) classes outl)
+    + bit 5 (unchangedb tokens tokens_after && unchangedb classes classes_after
+             && toks_eqb out out2 && toks_eqb outl outl2)
   end.
